@@ -135,6 +135,8 @@ func argClass(a Act) string {
 		return "plain"
 	case strings.HasPrefix(src, "\""):
 		return "string"
+	case strings.Contains(src, "^") || strings.Contains(src, "log"):
+		return "beyond-every-integer"
 	case strings.Contains(src, "."):
 		return "fractional"
 	case strings.Contains(src, "NF"):
